@@ -7,7 +7,9 @@
   scalar text `sh` (`%v`); `fmt.Sprintf("%v", cell)` for whole cells is `Spec.Search.fmtV` (documented fmt behaviour:
   `<nil>`, `[a b]`, `map[k:v …]` with sorted keys).  `strings.Contains` = `bytesContains` (same specification).
   Rows are walked in `rowKeys` order (fix search/02; before it: Go's random map order — only the order of the
-  findings depended on it, not the set).
+  findings depended on it, not the set).  After fix search/03 ScanString lower-cases `data` once and tests
+  `bytesContains(dataLower, lowerASCII(kw))`; that is `containsIgnoreCase data kw` unfolded (sharing the lower-cased
+  copy is not observable in a pure model; the allocation it saves is checked by family `secretbig`).
 -/
 import PgVerif.Model.Search
 namespace PgVerif.Model.Secrets
